@@ -2,6 +2,7 @@ package sym
 
 import (
 	"fmt"
+	"math/big"
 	"go/types"
 	"sort"
 	"strings"
@@ -312,7 +313,11 @@ func (st *State) model() map[string]string {
 			k = fmt.Sprintf("%s#%d", n.Label, c)
 		}
 		cnt[n.Label]++
-		res[k] = fmt.Sprint(ParseSMTValue(vals[n.Name]))
+		pv := ParseSMTValue(vals[n.Name])
+		if bi, ok := pv.(*big.Int); ok && n.Sort == SBV && strings.HasPrefix(n.Kind, "int") && bi.Bit(n.W-1) == 1 {
+			pv = new(big.Int).Sub(bi, new(big.Int).Lsh(big.NewInt(1), uint(n.W)))
+		}
+		res[k] = fmt.Sprint(pv)
 	}
 	// interpretation of the uninterpreted predicates at the points used
 	for _, p := range st.preds {
